@@ -62,9 +62,13 @@ pub fn load<'a>(ctx: &mut Ctx, g: &'a Guarded) -> Option<BootInformation<'a>> {
 
 pub fn walk(ctx: &mut Ctx, g: &Guarded, bi: &BootInformation) {
     let mut it = bi.tags();
+    let mut n = 0usize;
     loop {
         match guard(|| it.next()) {
-            Ok(Some(t)) => ctx.ln("tag", tag_line(g, t)),
+            Ok(Some(t)) => {
+                n += 1;
+                ctx.ln("tag", tag_line(g, t))
+            }
             Ok(None) => {
                 ctx.ln("tags", "VAL END");
                 break;
@@ -75,6 +79,16 @@ pub fn walk(ctx: &mut Ctx, g: &Guarded, bi: &BootInformation) {
             }
         }
     }
+    // provided Iterator methods on fresh iterators
+    for k in [0, 1, n.saturating_sub(1), n, n + 1] {
+        let v = match guard(|| bi.tags().nth(k)) {
+            Ok(Some(t)) => format!("VAL {}", view(g, t)),
+            Ok(None) => "VAL none".to_string(),
+            Err(()) => "PANIC".to_string(),
+        };
+        ctx.ln("tags_nth", format!("{} {}", k, v));
+    }
+    ctx.ln("tags_count", gv(|| bi.tags().count()));
 }
 
 pub fn modules(ctx: &mut Ctx, g: &Guarded, bi: &BootInformation) {
